@@ -16,7 +16,8 @@ NoDup(ys) == \A j, k \in 1..Len(ys) : j # k => ys[j].addr # ys[k].addr
 Round(ys, f, c) == ((\A i \in 1..Len(f) : f[i] = "ok") /\ c = Len(f)) =>
                      (Len(ys) = Len(f) \div 2 /\ \A r \in 1..(Len(f) \div 2) : \E k \in 1..Len(ys) : ys[k].addr = r)
 DecodeOK(ev) == /\ ev.clean = 1
-                /\ NoMis(Ys(ev)) /\ Good(Ys(ev), ev.faults, ev.cut) /\ NoDup(Ys(ev)) /\ Round(Ys(ev), ev.faults, ev.cut)
+                \* (completeness on a fault-free track -- Round -- is C05's subject and is judged there, not here)
+                /\ NoMis(Ys(ev)) /\ Good(Ys(ev), ev.faults, ev.cut) /\ NoDup(Ys(ev))
                 /\ \A k \in 1..Len(ev.yields) : ev.yields[k][3] = 1          \* data CRC recomputed from the yielded bytes
 \* raw streams: only "every yielded sector has a good data CRC" can be judged
 RawOK(ev) == ev.clean = 1 /\ \A k \in 1..Len(ev.yields) : ev.yields[k][3] = 1
